@@ -53,7 +53,7 @@ func Print(g *Grammar, o PrintOpts) string {
 		fmt.Fprintf(&sb, "{\npackage %s\n", o.Pkg)
 		if !o.Plain && g.hasBlocks() {
 			sb.WriteString("\nimport \"vb/mon\"\n")
-			if g.IndirectState && g.UsesState {
+			if g.IndirectState && g.UsesState && !g.StateHelperExtern {
 				sb.WriteString("\nfunc verifSt(x *current) map[string]any { return x.state }\n")
 			}
 		}
@@ -221,6 +221,9 @@ func (p *printer) block(e *Expr) {
 		st = c + ".state"
 		if p.g.IndirectState {
 			st = "verifSt(" + c + ")"
+			if p.g.StateHelperExtern {
+				st = "verifStX(" + c + ")"
+			}
 		}
 	}
 	sp := b.Spec
